@@ -507,14 +507,20 @@ func forcedCases(r *hx.Rng, tier string) []Case {
 
 	// inbox: A parked inside its k-th inbox store call
 	ipres := [][]Op{{}, {{Kind: "add", U: 1, M: 90}, {Kind: "add", U: 1, M: 91}}}
-	ias := []Op{{Kind: "add", U: 1, M: 1}, {Kind: "pickup", U: 1, N: 1}, {Kind: "status", U: 1}, {Kind: "pickup", U: 1, N: 5}}
+	ias := []Op{{Kind: "add", U: 1, M: 1}, {Kind: "pickup", U: 1, N: 1}, {Kind: "status", U: 1}, {Kind: "pickup", U: 1, N: 5}, {Kind: "pickupf", U: 1, N: 1}, {Kind: "pickupf", U: 1, N: 5}}
 	ibs := []Op{{Kind: "add", U: 1, M: 2}, {Kind: "pickup", U: 1, N: 1}, {Kind: "status", U: 1}, {Kind: "add", U: 2, M: 3}}
 
 	for _, p := range ipres {
 		for ai := range ias {
 			for bi := range ibs {
-				for park := 0; park < 3; park++ {
-					if tier != "thorough" && r.Intn(100) >= 40 {
+				for _, park := range []int{0, 1, 2, -2} {
+					if park == -2 && ias[ai].Kind == "add" {
+						continue // add sends nothing
+					}
+
+					// the pairs "pickup parked inside its (failing) send, add meanwhile" always run
+					must := park == -2 && ias[ai].Kind == "pickupf" && ibs[bi].Kind == "add"
+					if tier != "thorough" && !must && r.Intn(100) >= 40 {
 						continue
 					}
 
